@@ -241,7 +241,9 @@ Definition mon10_step (cf : lcfg) (cur : status) (s : m10) (e : lev) : m10 :=
                (a shutdown is final: it stays in force) *)
                mkM10 (a_open s) (a_ustart s) (a_fatal s) (a_trans s) (a_kind s) (a_hist s) (a_ended s) false false
                      (a_shutcall s) None (a_shut s) (a_calls s) (a_attempts s) (a_lastrec s) (a_v s)
-          else mkM10 (a_open s) false (a_fatal s) (a_trans s) (a_kind s) (a_hist s) (a_ended s) (a_stopcall s)
+          else if ecls_eqb e CRunning
+               then s   (* refused at the status check: it did nothing, an earlier Start may still be opening *)
+               else mkM10 (a_open s) false (a_fatal s) (a_trans s) (a_kind s) (a_hist s) (a_ended s) (a_stopcall s)
                      (a_forcecall s) (a_shutcall s) (a_ustop s) (a_shut s) (a_calls s) (a_attempts s) (a_lastrec s) (a_v s)
       | KStop | KStopWait =>
           if is_nil e
@@ -362,11 +364,12 @@ Fixpoint lookup_q (id : nat) (l : list (nat * nat)) : option nat :=
   match l with [] => None | (j, x) :: t => if Nat.eqb j id then Some x else lookup_q id t end.
 
 Definition class_matches (e : ecls) (st : status) : bool :=
+  match st with Recovering => true | _ =>     (* not a final status: the recovery decides later *)
   match e with
   | CNil => match st with UserStopped | SystemStopped => true | _ => false end
   | CFatal | CForce | CExhausted => match st with Degraded => true | _ => false end
   | _ => true
-  end.
+  end end.
 
 Definition mon11_step (s : m11) (e : lev) : m11 :=
   match e with
